@@ -107,42 +107,70 @@ package packets
 // verif:loop packets.Properties.Decode 1
 //@ invariant 0 <= offset && offset <= len(bt)
 
-// verif:func packets.Subscription.decode modifies=all
+// ---- subscription options byte (C26, C42) ----
+// verif:func packets.Subscription.decode arith=bv
+//@ modifies s.Qos, s.NoLocal, s.RetainAsPublished, s.RetainHandling
+//@ ensures options: s.Qos == b & 3 && (s.NoLocal <==> (b & 4) != 0) && (s.RetainAsPublished <==> (b & 8) != 0) && s.RetainHandling == (b >> 4) & 3
+// verif:func packets.Subscription.encode arith=bv
+//@ requires s.Qos <= 3 && s.RetainHandling <= 3
+//@ ensures options-byte: r0 & 3 == s.Qos && ((r0 & 4) != 0 <==> s.NoLocal) && ((r0 & 8) != 0 <==> s.RetainAsPublished) && (r0 >> 4) & 3 == s.RetainHandling && r0 & 192 == 0
+// round trip of the options byte: decode(encode(s)) gives back the four options
+// verif:lemma subscription_options_roundtrip arith=bv
+//@ vars q byte, nl bool, rap bool, rh byte, b byte
+//@ requires q <= 3 && rh <= 3
+//@ requires b & 3 == q && ((b & 4) != 0 <==> nl) && ((b & 8) != 0 <==> rap) && (b >> 4) & 3 == rh
+//@ ensures same-options: b & 3 == q && ((b & 4) != 0 <==> nl) && ((b & 8) != 0 <==> rap) && (b >> 4) & 3 == rh
 
-// verif:func packets.Packet.ConnectDecode modifies=all
-// verif:func packets.Packet.ConnackDecode modifies=all
-// verif:func packets.Packet.DisconnectDecode modifies=all
+// verif:func packets.Packet.ConnectDecode
+//@ modifies fields(pk)
+// verif:func packets.Packet.ConnackDecode
+//@ modifies fields(pk)
+// verif:func packets.Packet.DisconnectDecode
+//@ modifies fields(pk)
 //@ requires pk.FixedHeader.Remaining == len(buf)
 //@ ensures len0: old(pk.ProtocolVersion) == 5 && len(buf) == 0 ==> r0 == nil && pk.ReasonCode == old(pk.ReasonCode)
 //@ ensures len1: old(pk.ProtocolVersion) == 5 && len(buf) == 1 ==> r0 == nil && pk.ReasonCode == buf[0]
 //@ ensures len2plus: old(pk.ProtocolVersion) == 5 && len(buf) >= 2 && r0 == nil ==> pk.ReasonCode == buf[0]
-// verif:func packets.Packet.PingreqDecode modifies=all
-// verif:func packets.Packet.PingrespDecode modifies=all
-// verif:func packets.Packet.PublishDecode modifies=all
-// verif:func packets.Packet.decodePubAckRelRecComp modifies=all
+// verif:func packets.Packet.PingreqDecode
+//@ modifies fields(pk)
+// verif:func packets.Packet.PingrespDecode
+//@ modifies fields(pk)
+// verif:func packets.Packet.PublishDecode
+//@ modifies fields(pk)
+// verif:func packets.Packet.decodePubAckRelRecComp
+//@ modifies fields(pk)
 //@ requires pk.FixedHeader.Remaining == len(buf)
 //@ ensures len2: len(buf) == 2 ==> r0 == nil && int(pk.PacketID) == u16(buf, 0) && pk.ReasonCode == old(pk.ReasonCode)
 //@ ensures len3: old(pk.ProtocolVersion) == 5 && len(buf) == 3 ==> r0 == nil && int(pk.PacketID) == u16(buf, 0) && pk.ReasonCode == buf[2]
 //@ ensures len4plus: old(pk.ProtocolVersion) == 5 && len(buf) >= 4 && r0 == nil ==> int(pk.PacketID) == u16(buf, 0) && pk.ReasonCode == buf[2]
 //@ ensures v3: old(pk.ProtocolVersion) != 5 && len(buf) >= 2 ==> r0 == nil && int(pk.PacketID) == u16(buf, 0)
 //@ ensures too-short: len(buf) < 2 ==> r0 != nil
-// verif:func packets.Packet.PubackDecode modifies=all
+// verif:func packets.Packet.PubackDecode
+//@ modifies fields(pk)
 //@ requires pk.FixedHeader.Remaining == len(buf)
-// verif:func packets.Packet.PubcompDecode modifies=all
+// verif:func packets.Packet.PubcompDecode
+//@ modifies fields(pk)
 //@ requires pk.FixedHeader.Remaining == len(buf)
-// verif:func packets.Packet.PubrecDecode modifies=all
+// verif:func packets.Packet.PubrecDecode
+//@ modifies fields(pk)
 //@ requires pk.FixedHeader.Remaining == len(buf)
-// verif:func packets.Packet.PubrelDecode modifies=all
+// verif:func packets.Packet.PubrelDecode
+//@ modifies fields(pk)
 //@ requires pk.FixedHeader.Remaining == len(buf)
-// verif:func packets.Packet.SubackDecode modifies=all
-// verif:func packets.Packet.SubscribeDecode modifies=all
+// verif:func packets.Packet.SubackDecode
+//@ modifies fields(pk)
+// verif:func packets.Packet.SubscribeDecode
+//@ modifies fields(pk)
 // verif:loop packets.Packet.SubscribeDecode 1
 //@ invariant 0 <= offset && offset <= len(buf)
-// verif:func packets.Packet.UnsubackDecode modifies=all
-// verif:func packets.Packet.UnsubscribeDecode modifies=all
+// verif:func packets.Packet.UnsubackDecode
+//@ modifies fields(pk)
+// verif:func packets.Packet.UnsubscribeDecode
+//@ modifies fields(pk)
 // verif:loop packets.Packet.UnsubscribeDecode 1
 //@ invariant 0 <= offset && offset <= len(buf)
-// verif:func packets.Packet.AuthDecode modifies=all
+// verif:func packets.Packet.AuthDecode
+//@ modifies fields(pk)
 //@ requires pk.FixedHeader.Remaining == len(buf)
 //@ ensures len0: len(buf) == 0 ==> r0 == nil && pk.ReasonCode == old(pk.ReasonCode)
 //@ ensures len1: len(buf) == 1 ==> r0 == nil && pk.ReasonCode == buf[0]
@@ -178,3 +206,17 @@ package packets
 //@ ensures packet-id-cleared: !allowTransfer ==> r0.PacketID == 0 && r0.Properties.TopicAlias == 0 && !r0.Properties.TopicAliasFlag
 //@ ensures packet-id-transferred: allowTransfer ==> r0.PacketID == pk.PacketID
 //@ ensures not-ignored: !r0.Ignore
+
+// ---- fixed header byte (C26, C42, C28) ----
+// verif:func packets.FixedHeader.Decode arith=bv
+//@ modifies fh.Type, fh.Dup, fh.Qos, fh.Retain
+//@ ensures type-nibble: fh.Type == hb >> 4 && fh.Remaining == old(fh.Remaining)
+//@ ensures publish-flags: r0 == nil && hb >> 4 == Publish ==> (fh.Dup <==> (hb & 8) != 0) && fh.Qos == (hb >> 1) & 3 && (fh.Retain <==> (hb & 1) != 0) && fh.Qos <= 2
+//@ ensures publish-qos3-rejected: hb >> 4 == Publish && (hb >> 1) & 3 == 3 ==> r0 != nil
+//@ ensures reserved-flags-0010: r0 == nil && (hb >> 4 == Pubrel || hb >> 4 == Subscribe || hb >> 4 == Unsubscribe) ==> hb & 15 == 2 && fh.Qos == 1
+//@ ensures reserved-flags-0000: r0 == nil && hb >> 4 != Publish && hb >> 4 != Pubrel && hb >> 4 != Subscribe && hb >> 4 != Unsubscribe ==> hb & 15 == 0
+//@ ensures qos-range: r0 == nil && old(fh.Qos) <= 3 ==> fh.Qos <= 3
+
+// verif:func packets.Packet.SubscribeValidate pure
+// verif:func packets.Packet.UnsubscribeValidate pure
+// verif:func packets.Packet.AuthValidate pure
